@@ -31,6 +31,7 @@ MANIFEST = {
     "note": "Reference rule: nearest ancestor in the user set, else nearest in the built-in set (documented file-system-first fallback). "
             "allow_filter_test_or_use_query_overwrite=True is the documented opt-out and not judged.",
 }
+MANIFEST["text"] += ' Several user template directories (2-3, both search orders) are resolved against the union-of-directories reference.'
 
 
 def hierarchy():
